@@ -1,14 +1,24 @@
-"""C19 — auto-started services (decided part: the activation helper only executes a program for a valid name whose service file matches)."""
+"""C19 — auto-started services: activation helper decision chain + bus-side skeletons (join / start once, flush in order, failure fan-out)."""
 META = {
     "explanation": "The real decision chain of bus/activation-helper.c is symbolically executed with an arbitrary bus name and an arbitrary service-file content (which keys exist, "
                    "Name= value): the exec stub is reached at most once and only when the name is valid and the file declares exactly that name with Exec and User.",
-    "outside": ["the bus side of activation: at-most-once start, holding and in-order delivery of messages, failure fan-out, timeouts (bus/activation.c: ~60 externals, heap strings, "
-                "hash tables; not built)", "service-directory lookup, configuration parsing, environment clearing, user switching (body-less stubs)", "babysitter / process behaviour"],
+    "outside": ["timeouts, babysitter / process exit handling, systemd activation, more than 2 held messages", "service-directory lookup, configuration parsing, environment clearing, user switching (body-less stubs)", "babysitter / process behaviour"],
 }
 def jobs(tier):
-    return [Job(name="a.helper_chain", group="C19.a", harness="harness/C19_helper.c", real=["dbus/dbus-marshal-validate.c", "dbus/dbus-string.c"], env=["assert_stubs.c", "mem.c"],
+    J = [Job(name="a.helper_chain", group="C19.a", harness="harness/C19_helper.c", real=["dbus/dbus-marshal-validate.c", "dbus/dbus-string.c"], env=["assert_stubs.c", "mem.c"],
                 checks="assert", unwind=10, unwindset=["strcmp.0:64", "strlen.0:24"], timeout=600,
                 remove_bodies=["desktop_file_for_name", "get_correct_parser", "check_dbus_user", "clear_environment", "switch_user"],
                 encodes=["run_launch_helper", "check_bus_name", "_dbus_validate_bus_name", "launch_bus_name", "get_parameters_for_service", "check_service_name", "exec_for_correct_user"],
                 stubs=["desktop file = symbolic key presence and Name value", "execv = ghost counter", "lookup / config / environment / user switch = body-less (arbitrary outcome)"],
                 bounds="bus name and file Name value: any bytes, length 0..6; presence of Name / Exec / User symbolic", shape="helper chain")]
+    for op, nm, shapes in ((0, "activate", ((0, 0), (1, 0), (1, 1), (1, 2))), (1, "flush", ((1, 0), (1, 1), (1, 2))), (2, "failure_fanout", ((1, 0), (1, 1), (1, 2)))):
+        for pend, e in shapes:
+            J.append(Job(name=f"bcd.{nm}.P{pend}E{e}", group="C19.bus", harness="harness/C19_activation.c", defines={"OP": op, "PEND": pend, "E": e}, real=["dbus/dbus-list.c"],
+                         env=["assert_stubs.c", "pool_lock.c"], checks="assert", unwind=8, unwindset=["strcmp.0:64"], timeout=600,
+                         remove_bodies=["update_service_cache", "check_service_file"],
+                         encodes=["bus_activation_activate_service", "activation_find_entry", "add_cancel_pending_to_transaction", "bus_activation_send_pending_auto_activation_messages",
+                                  "try_send_activation_failure"],
+                         stubs=["hash tables = one-entry maps", "spawn / shell parsing / loop / transaction / dispatch = ghost logs with symbolic outcomes", "service cache refresh = body-less"],
+                         bounds=f"activation {'pending with %d held message(s)' % e if pend else 'not pending'}; spawn / parse / dispatch outcomes, connectedness and auto-start flags symbolic",
+                         shape=f"{nm}, pending={pend}, held={e}"))
+    return J
